@@ -50,6 +50,18 @@
 (*    ResolveOnDerive = TRUE (WithAttrs stores a.Value.Resolve(), as the       *)
 (*    stdlib handlers do) freezes the value of derivation time into the        *)
 (*    handler and its descendants: LiveValuesCurrent violated.                 *)
+(*  - the context given to Handle is environment too (ArmCtx: a live one, one  *)
+(*    that is already cancelled, an expired deadline).  slog's contract: a     *)
+(*    record is not dropped because its context is done.  CtxAwareLock = TRUE  *)
+(*    (the encoder lock acquired with a select on ctx.Done()) may drop such a  *)
+(*    record: NoCtxDrop violated.                                              *)
+(*  - a process may hold several independent handler trees (NewTree: another   *)
+(*    NewJSONHybridHandler call, on the same or on another writer).  What a    *)
+(*    tree does is a function of its own derivations, records and its own      *)
+(*    writer's behaviour since ITS creation: each tree has its own encoder and *)
+(*    mutex.  ShareByWriter = TRUE (a process-wide registry keyed by the       *)
+(*    writer) lets a Write error met by one tree silence a tree created        *)
+(*    later on the same writer: StaleOnlyAfterError violated.                  *)
 EXTENDS Integers, Sequences, FiniteSets
 
 CONSTANTS Levels,        \* record levels offered to Log (slog.Level integers)
@@ -74,6 +86,11 @@ CONSTANTS Levels,        \* record levels offered to Log (slog.Level integers)
           StickyError,   \* after a Write error the shared encoder fails every later Encode
           LiveKind,      \* 0: no live values; 1: LogValuer of the cell; 2: LogValuer -> group holding the cell and a LogValuer
           MaxTicks,      \* bound on the environment changing the cell
+          NWriters,      \* writers the environment has: 1..NWriters (the first tree is on writer 1)
+          MaxTrees,      \* bound on independent handler trees (NewJSONHybridHandler calls)
+          ShareByWriter, \* FALSE: every tree has its own encoder + mutex; TRUE: trees on one writer share them
+          Ctxs,          \* context kinds the environment may arm: 1 live (cancellable), 2 already cancelled, 3 deadline expired
+          CtxAwareLock,  \* FALSE: plain mutex; TRUE: the lock is acquired with a select on ctx.Done()
           ResolveOnDerive \* FALSE: handler attributes stay unresolved until Handle; TRUE: WithAttrs resolves them
 
 VARIABLES thr,      \* the configured level (copied to every derived handler)
@@ -85,19 +102,23 @@ VARIABLES thr,      \* the configured level (copied to every derived handler)
           rheap,    \* backing arrays of the records' attribute slices
           item,     \* the pooled bufferedTextHandler: [large, bound]
           panics,   \* Handle calls that panicked on their own (not because the writer did)
-          armed,    \* what the next Write will do: 0 succeed, 1 error, 2 short write + error, 3 panic
+          armed,    \* armed[w]: what the next Write of writer w will do: 0 succeed, 1 error, 2 short write + error, 3 panic
           nfaults,  \* ArmFault steps so far
-          encErr,   \* the shared encoder remembers a Write error
-          locked,   \* the mutex was left locked
+          encErr,   \* encErr[e]: encoder e (see EncKey) remembers a Write error
+          locked,   \* locked[e]: the mutex that goes with encoder e was left locked
           cell,     \* what the live values currently evaluate to (changed by the environment)
           frozen,   \* frozen[h]: for each attribute of h, what it evaluated to when it was given to WithAttrs
-          rets,     \* how each Handle call ended, in order: 0 line written, 1 returned the writer's error,
-                    \* 3 the writer's panic went through, 2 returned a stale error, 8 panicked, 9 never returned
+          tree,     \* tree[h]: the independent tree (constructor call) handler h belongs to
+          twriter,  \* twriter[t]: the writer tree t was created on
+          nextctx,  \* kind of the context the next Handle call gets (0: context.Background())
+          rets,     \* how each Handle call ended, in order: [t |-> its tree, c |-> code] with c = 0 line written,
+                    \* 1 returned the writer's error, 3 the writer's panic went through, 2 returned a stale error,
+                    \* 4 dropped because its context was done, 8 panicked, 9 never returned
           out,      \* the lines written so far, in order
           ngroups,  \* WithGroup calls so far (each of them panicked)
           steps
 
-vars == <<thr, attrs, parent, sl, heap, recs, rheap, item, panics, armed, nfaults, encErr, locked, cell, frozen, rets, out, ngroups, steps>>
+vars == <<thr, attrs, parent, sl, heap, recs, rheap, item, panics, armed, nfaults, encErr, locked, cell, frozen, tree, twriter, nextctx, rets, out, ngroups, steps>>
 
 LevelError == 8
 Severity(lv) == IF lv >= LevelError THEN "ERROR" ELSE "NORMAL"
@@ -106,6 +127,12 @@ IsEnabled(lv) == lv >= thr
 
 NumH == Len(attrs)
 Handlers == 1..NumH
+NumT == Len(twriter)
+(* The encoder (and mutex) a tree uses: its own - or, with a registry keyed by *)
+(* the writer, the one of the first tree created on that writer.               *)
+EncKey(t) == IF ShareByWriter
+               THEN CHOOSE u \in 1..NumT : twriter[u] = twriter[t] /\ \A v \in 1..NumT : twriter[v] = twriter[t] => u <= v
+               ELSE t
 
 (* Attribute ids: positive = given to WithAttrs when handler h was created,   *)
 (* negative = carried by the r-th record itself; BugAttr is the attribute      *)
@@ -195,7 +222,8 @@ Init == /\ thr \in Thresholds
         /\ rheap = <<>>
         /\ item = [large |-> FALSE, bound |-> TRUE]
         /\ panics = 0
-        /\ armed = 0 /\ nfaults = 0 /\ encErr = FALSE /\ locked = FALSE /\ rets = <<>>
+        /\ armed = [w \in 1..NWriters |-> 0] /\ nfaults = 0 /\ encErr = <<FALSE>> /\ locked = <<FALSE>> /\ rets = <<>>
+        /\ tree = <<1>> /\ twriter = <<1>> /\ nextctx = 0
         /\ cell = 0 /\ frozen = << <<>> >>
         /\ out = <<>>
         /\ ngroups = 0
@@ -211,10 +239,11 @@ Derive(h, k) ==
            a == AppendIn(heap, base, batch)
        IN /\ attrs' = Append(attrs, attrs[h] \o batch)
           /\ parent' = Append(parent, h)
+          /\ tree' = Append(tree, tree[h])
           /\ frozen' = Append(frozen, frozen[h] \o ValsOf(batch, cell))
           /\ sl' = Append(sl, a.s)
           /\ heap' = a.heap
-    /\ UNCHANGED <<thr, recs, rheap, item, panics, armed, nfaults, encErr, locked, cell, rets, out, ngroups>>
+    /\ UNCHANGED <<thr, recs, rheap, item, panics, armed, nfaults, encErr, locked, cell, twriter, nextctx, rets, out, ngroups>>
 
 (* A line: r = the record's number (0: not kept by the caller), rec = the      *)
 (* record's own attributes, attrs = everything the message shows.              *)
@@ -231,7 +260,7 @@ StillBound == IF RebindOnLarge /\ item.large THEN FALSE ELSE item.bound
 
 (* h.Handle(value rv of record r), the records' heap being hp: the handler     *)
 (* works on a copy of the value.                                               *)
-HandleOn(hp, h, r, rv) ==
+HandleOn(hp, h, r, rv, drop) ==
     LET b0    == rv.back
         \* the copy: Go copies the slice header only
         priv  == ~ShareOnCopy /\ b0.cap > 0
@@ -241,38 +270,51 @@ HandleOn(hp, h, r, rv) ==
         added == AddAttrsTo([front |-> rv.front, back |-> b2, heap |-> hp0], Contents(sl[h]))
         shown == added.front \o ContentsIn(added.heap, added.back)
         largeNow == item.large \/ rv.sz \in LargeSizes
+        t     == tree[h]
+        e     == EncKey(t)
+        w     == twriter[t]
+        Ret(c) == Append(rets, [t |-> t, c |-> c])
     IN /\ rheap' = added.heap
-       /\ IF locked
+       /\ nextctx' = 0
+       /\ IF locked[e]
             THEN \* h.mu.Lock() on a mutex nobody will ever unlock
-                 /\ rets' = Append(rets, 9)
+                 /\ rets' = Ret(9)
                  /\ item' = [large |-> largeNow, bound |-> StillBound]
                  /\ UNCHANGED <<out, panics, armed, encErr, locked>>
           ELSE IF ~StillBound
             THEN \* Handle reads the new, empty buffer: msg[:len(msg)-1] panics, nothing is written
                  /\ panics' = panics + 1
-                 /\ rets' = Append(rets, 8)
+                 /\ rets' = Ret(8)
                  /\ item' = [large |-> FALSE, bound |-> FALSE]
                  /\ UNCHANGED <<out, armed, encErr, locked>>
-          ELSE IF StickyError /\ encErr
+          ELSE IF drop
+            THEN \* the select between the lock and ctx.Done() took the context's side
+                 /\ rets' = Ret(4)
+                 /\ item' = [large |-> largeNow, bound |-> TRUE]
+                 /\ UNCHANGED <<out, panics, armed, encErr, locked>>
+          ELSE IF StickyError /\ encErr[e]
             THEN \* the encoder returns its remembered error without calling Write
-                 /\ rets' = Append(rets, 2)
+                 /\ rets' = Ret(2)
                  /\ item' = [large |-> largeNow, bound |-> TRUE]
                  /\ UNCHANGED <<out, panics, armed, encErr, locked>>
           ELSE /\ item' = [large |-> largeNow, bound |-> TRUE]
-               /\ armed' = 0
+               /\ armed' = [armed EXCEPT ![w] = 0]
                /\ UNCHANGED panics
-               /\ CASE armed = 0 ->
+               /\ CASE armed[w] = 0 ->
                          /\ out' = Append(out, Line(h, rv.lv, r, rv.attrs, shown))
-                         /\ rets' = Append(rets, 0)
+                         /\ rets' = Ret(0)
                          /\ UNCHANGED <<encErr, locked>>
-                    [] armed \in {1, 2} ->   \* the writer's error is Handle's result
-                         /\ rets' = Append(rets, 1)
-                         /\ encErr' = TRUE
+                    [] armed[w] \in {1, 2} ->   \* the writer's error is Handle's result
+                         /\ rets' = Ret(1)
+                         /\ encErr' = [encErr EXCEPT ![e] = TRUE]
                          /\ UNCHANGED <<out, locked>>
                     [] OTHER ->             \* the panic leaves Handle; deferred calls run
-                         /\ rets' = Append(rets, 3)
-                         /\ locked' = ~DeferUnlock
+                         /\ rets' = Ret(3)
+                         /\ locked' = [locked EXCEPT ![e] = ~DeferUnlock]
                          /\ UNCHANGED <<out, encErr>>
+
+(* A done context may make a context-aware lock give the record up. *)
+Drops == IF CtxAwareLock /\ nextctx \in {2, 3} THEN {TRUE, FALSE} ELSE {FALSE}
 
 (* The caller builds a new record (level, size class, AddAttrs calls of the    *)
 (* given sizes) and handles it.                                                *)
@@ -282,37 +324,56 @@ LogNew(h, lv, sz, shape) ==
            b   == BuildRec([front |-> <<>>, back |-> NilSlice, heap |-> rheap], ids, shape)
            rv  == [lv |-> lv, sz |-> sz, attrs |-> ids, front |-> b.front, back |-> b.back]
        IN /\ recs' = Append(recs, rv)
-          /\ HandleOn(b.heap, h, r, rv)
-    /\ UNCHANGED <<thr, attrs, parent, sl, heap, nfaults, cell, frozen, ngroups>>
+          /\ \E drop \in Drops : HandleOn(b.heap, h, r, rv, drop)
+    /\ UNCHANGED <<thr, attrs, parent, sl, heap, nfaults, cell, frozen, tree, twriter, ngroups>>
 
 (* The caller hands a record value it already used to a handler again. *)
 ReLog(h, r) ==
-    /\ HandleOn(rheap, h, r, recs[r])
-    /\ UNCHANGED <<thr, attrs, parent, sl, heap, recs, nfaults, cell, frozen, ngroups>>
+    /\ \E drop \in Drops : HandleOn(rheap, h, r, recs[r], drop)
+    /\ UNCHANGED <<thr, attrs, parent, sl, heap, recs, nfaults, cell, frozen, tree, twriter, ngroups>>
 
 (* The environment: the next Write call fails in the given way. *)
-ArmFault(k) ==
-    /\ armed = 0 /\ nfaults < MaxFaults
-    /\ armed' = k
+ArmFault(k, w) ==
+    /\ armed[w] = 0 /\ nfaults < MaxFaults
+    /\ armed' = [armed EXCEPT ![w] = k]
     /\ nfaults' = nfaults + 1
-    /\ UNCHANGED <<thr, attrs, parent, sl, heap, recs, rheap, item, panics, encErr, locked, cell, frozen, rets, out, ngroups>>
+    /\ UNCHANGED <<thr, attrs, parent, sl, heap, recs, rheap, item, panics, encErr, locked, cell, frozen, tree, twriter, nextctx, rets, out, ngroups>>
+
+(* The environment: the context the next Handle call is given. *)
+ArmCtx(k) ==
+    /\ nextctx = 0
+    /\ nextctx' = k
+    /\ UNCHANGED <<thr, attrs, parent, sl, heap, recs, rheap, item, panics, armed, nfaults, encErr, locked, cell, frozen, tree, twriter, rets, out, ngroups>>
+
+(* Another NewJSONHybridHandler call: an independent tree on writer w. *)
+NewTree(w) ==
+    /\ NumT < MaxTrees /\ NumH < MaxH
+    /\ attrs' = Append(attrs, <<>>)
+    /\ parent' = Append(parent, 0)
+    /\ sl' = Append(sl, NilSlice)
+    /\ frozen' = Append(frozen, <<>>)
+    /\ tree' = Append(tree, NumT + 1)
+    /\ twriter' = Append(twriter, w)
+    /\ encErr' = Append(encErr, FALSE)
+    /\ locked' = Append(locked, FALSE)
+    /\ UNCHANGED <<thr, heap, recs, rheap, item, panics, armed, nfaults, cell, nextctx, rets, out, ngroups>>
 
 (* The environment changes what the live values evaluate to. *)
 Tick ==
     /\ LiveKind > 0 /\ cell < MaxTicks
     /\ cell' = cell + 1
-    /\ UNCHANGED <<thr, attrs, parent, sl, heap, recs, rheap, item, panics, armed, nfaults, encErr, locked, frozen, rets, out, ngroups>>
+    /\ UNCHANGED <<thr, attrs, parent, sl, heap, recs, rheap, item, panics, armed, nfaults, encErr, locked, frozen, tree, twriter, nextctx, rets, out, ngroups>>
 
 (* Abstract form used by trace validation: a record given by its attribute     *)
 (* ids, handled once, its storage not modelled.                                *)
 LogRec(h, lv, rec) ==
     /\ out' = Append(out, Line(h, lv, 0, rec, rec \o Contents(sl[h])))
-    /\ UNCHANGED <<thr, attrs, parent, sl, heap, recs, rheap, item, panics, armed, nfaults, encErr, locked, cell, frozen, rets, ngroups>>
+    /\ UNCHANGED <<thr, attrs, parent, sl, heap, recs, rheap, item, panics, armed, nfaults, encErr, locked, cell, frozen, tree, twriter, nextctx, rets, ngroups>>
 
 (* h.WithGroup(name) is not supported: it panics and changes nothing. *)
 WithGroup(h) ==
     /\ ngroups' = ngroups + 1
-    /\ UNCHANGED <<thr, attrs, parent, sl, heap, recs, rheap, item, panics, armed, nfaults, encErr, locked, cell, frozen, rets, out>>
+    /\ UNCHANGED <<thr, attrs, parent, sl, heap, recs, rheap, item, panics, armed, nfaults, encErr, locked, cell, frozen, tree, twriter, nextctx, rets, out>>
 
 Shapes == RecShapes \cup {<<m>> : m \in RecSizes}
 
@@ -323,7 +384,9 @@ Next == /\ steps < MaxSteps
              \/ Len(recs) < MaxLogs /\ \E lv \in Levels, sz \in Sizes, sh \in Shapes : LogNew(h, lv, sz, sh)
              \/ RelogsSoFar < MaxRelogs /\ \E r \in 1..Len(recs) : ReLog(h, r)
              \/ ngroups < MaxGroups /\ WithGroup(h)
-           \/ \E k \in Faults : ArmFault(k)
+           \/ \E k \in Faults, w \in 1..NWriters : ArmFault(k, w)
+           \/ \E k \in Ctxs : ArmCtx(k)
+           \/ \E w \in 1..NWriters : NewTree(w)
            \/ Tick
 
 Spec == Init /\ [][Next]_vars
@@ -331,7 +394,8 @@ Spec == Init /\ [][Next]_vars
 ----------------------------------------------------------------------------
 TypeOK ==
     /\ thr \in Thresholds
-    /\ Len(parent) = NumH /\ Len(sl) = NumH /\ Len(frozen) = NumH
+    /\ Len(parent) = NumH /\ Len(sl) = NumH /\ Len(frozen) = NumH /\ Len(tree) = NumH
+    /\ Len(encErr) = NumT /\ Len(locked) = NumT /\ \A h \in Handlers : tree[h] \in 1..NumT
     /\ \A h \in Handlers : /\ parent[h] \in 0..(h - 1)
                            /\ sl[h].len <= sl[h].cap
                            /\ (sl[h].cap > 0 => sl[h].arr \in 1..Len(heap) /\ Len(heap[sl[h].arr]) >= sl[h].cap)
@@ -372,16 +436,21 @@ ItemBound == item.bound
 (* Writer faults concern the one record they hit: no later Handle gets an old  *)
 (* error back, none waits for a mutex that will never be released, and the     *)
 (* lines are exactly those of the calls that ended well.                       *)
-NoStaleError == \A i \in 1..Len(rets) : rets[i] # 2
+NoStaleError == \A i \in 1..Len(rets) : rets[i].c # 2
 (* ... or, for an implementation that gives up after a Write error: an old     *)
 (* error comes back only after the writer did fail once (and then nothing is   *)
 (* written for that call, see LinesAreTheGoodCalls).                           *)
-StaleOnlyAfterError == \A i \in 1..Len(rets) : rets[i] = 2 => \E j \in 1..(i - 1) : rets[j] = 1
-NotWedged == ~locked /\ \A i \in 1..Len(rets) : rets[i] # 9
-LinesAreTheGoodCalls == Len(out) = Cardinality({i \in 1..Len(rets) : rets[i] = 0})
+(* The error must be one this very tree has seen since its creation: nothing   *)
+(* another tree went through - earlier, on the same writer or not - counts.    *)
+StaleOnlyAfterError == \A i \in 1..Len(rets) : rets[i].c = 2 =>
+                           \E j \in 1..(i - 1) : rets[j].c = 1 /\ rets[j].t = rets[i].t
+(* A record is not dropped because the context it came with is done. *)
+NoCtxDrop == \A i \in 1..Len(rets) : rets[i].c # 4
+NotWedged == (\A e \in 1..Len(locked) : ~locked[e]) /\ \A i \in 1..Len(rets) : rets[i].c # 9
+LinesAreTheGoodCalls == Len(out) = Cardinality({i \in 1..Len(rets) : rets[i].c = 0})
 
 (* A handler's attributes are its parent's followed by its own batch. *)
-TreeShape == \A h \in Handlers : h > 1 =>
+TreeShape == \A h \in Handlers : parent[h] # 0 =>
     /\ Len(attrs[h]) >= Len(attrs[parent[h]])
     /\ SubSeq(attrs[h], 1, Len(attrs[parent[h]])) = attrs[parent[h]]
     /\ \A j \in (Len(attrs[parent[h]]) + 1)..Len(attrs[h]) : Owner(attrs[h][j]) = h
